@@ -537,6 +537,15 @@ def search(R, ctx, deep, hints):
                 for e in (1e-6, 1e-9):
                     conv.append((Y, q, e, 1e12))
                 conv.append((Y, q, 1e-6, 3))
+    # signal + weak white noise on a long vector: many singular values just below e in the middle unfoldings (a flat tail) -
+    # the discarded ENERGY, not each discarded value, must stay within e at every factorisation (theorem: error <= sqrt(q) e)
+    for q, e in ([(14, 1e-3)] if not deep else [(14, 1e-3), (16, 1e-2), (12, 1e-3)]):
+        n = 2 ** q
+        x = np.linspace(0., 1., n)
+        rs = np.random.RandomState(rng.randrange(2 ** 31))
+        sgm = 0.9 * e / (2. * 2 ** (q / 4))
+        v = np.sin(7. * x) + 0.5 * np.cos(31. * x ** 2) + x + sgm * rs.normal(size=n)
+        conv.append(([v.reshape(1, n, 1)], q, e, 10 ** 6))
     for _ in range(150 if deep else 25):
         d, q = rng.randint(1, 3), rng.randint(1, 3)
         r = [1] + [rng.randint(1, 4) for _ in range(d - 1)] + [1]
